@@ -22,7 +22,7 @@ func (m *Machine) unop(fr *frame, instr *ssa.UnOp, x Value) Value {
 		}
 		return copyVal(*p)
 	case token.ARROW:
-		v, ok := m.chanRecv(x.(*Chan), instr.Pos())
+		v, ok := m.chanRecv(fr, x.(*Chan), instr.Pos())
 		if instr.CommaOk {
 			return Tuple{v, c.Bool(ok)}
 		}
@@ -504,18 +504,44 @@ func (m *Machine) conv(dst, src types.Type, x Value) Value {
 	panic(m.unsupported(fmt.Sprintf("conversion %s -> %s on %T", src, dst, x)))
 }
 
+// concInt turns a term that must be concrete (a length, a capacity) into a
+// host integer. A symbolic term is concretised with the solver: if the path
+// condition fixes its value that value is used, otherwise the engine forks
+// over the feasible values (bounded).
 func (m *Machine) concInt(v Value, what string) int {
 	t, ok := v.(*smt.Term)
-	if !ok || !t.IsConst() {
-		panic(m.unsupported(what + " must be concrete"))
+	if !ok {
+		panic(m.unsupported(what + " must be an integer"))
 	}
-	return int(int64(t.Val))
+	if t.IsConst() {
+		return int(int64(t.Val))
+	}
+	for tries := 0; tries < 64; tries++ {
+		v := m.modelValue(t, what)
+		k := m.C.BV(v, t.S.W)
+		if m.Branch(m.C.Eq(t, k)) {
+			return int(int64(v))
+		}
+	}
+	panic(m.unsupported(what + " must be concrete (more than 64 feasible values)"))
+}
+
+// idx64 widens an index operand to 64 bits according to its static type.
+func (m *Machine) idx64(v Value, sv ssa.Value) *smt.Term {
+	t, ok := v.(*smt.Term)
+	if !ok || t == nil {
+		return nil
+	}
+	if t.S.W == 64 {
+		return t
+	}
+	return m.resize(t, 64, sv != nil && isSigned(sv.Type()))
 }
 
 func (m *Machine) slice(instr *ssa.Slice, x, lo, hi, max Value) Value {
 	pos := instr.Pos()
-	tl, _ := lo.(*smt.Term)
-	th, _ := hi.(*smt.Term)
+	tl := m.idx64(lo, instr.Low)
+	th := m.idx64(hi, instr.High)
 	switch xv := x.(type) {
 	case *Seq:
 		if max != nil {
@@ -616,7 +642,7 @@ func (m *Machine) concretizeIndex(idx *smt.Term, n int, pos token.Pos, what stri
 }
 
 func (m *Machine) indexAddr(instr *ssa.IndexAddr, x, idx Value) Value {
-	it := idx.(*smt.Term)
+	it := m.idx64(idx, instr.Index)
 	switch xv := x.(type) {
 	case Slice:
 		k := m.concretizeIndex(it, len(xv.A), instr.Pos(), "index out of range")
@@ -641,7 +667,7 @@ func (m *Machine) indexAddr(instr *ssa.IndexAddr, x, idx Value) Value {
 }
 
 func (m *Machine) index(instr *ssa.Index, x, idx Value) Value {
-	it := idx.(*smt.Term)
+	it := m.idx64(idx, instr.Index)
 	switch xv := x.(type) {
 	case Array:
 		k := m.concretizeIndex(it, len(xv), instr.Pos(), "index out of range")
@@ -686,7 +712,7 @@ func (m *Machine) mapFind(mp *Map, key Value, pos token.Pos) *mapEntry {
 
 func (m *Machine) lookup(instr *ssa.Lookup, x, key Value) Value {
 	if s, ok := x.(*Seq); ok {
-		return m.seqIndex(s, key.(*smt.Term), instr.Pos())
+		return m.seqIndex(s, m.idx64(key, instr.Index), instr.Pos())
 	}
 	mp := x.(*Map)
 	e := m.mapFind(mp, key, instr.Pos())
@@ -727,6 +753,13 @@ func (m *Machine) mapDelete(mp *Map, key Value) {
 	}
 }
 
+func (m *Machine) zeroOrNil(t types.Type) Value {
+	if b, ok := t.(*types.Basic); ok && b.Kind() == types.Invalid {
+		return nil
+	}
+	return m.zero(t)
+}
+
 func (m *Machine) rangeIter(x Value, t types.Type) Value {
 	switch xv := x.(type) {
 	case *Map:
@@ -764,7 +797,7 @@ func (m *Machine) next(it Value, instr *ssa.Next) Value {
 			}
 		}
 		tt := instr.Type().(*types.Tuple)
-		return Tuple{c.False(), m.zero(tt.At(1).Type()), m.zero(tt.At(2).Type())}
+		return Tuple{c.False(), m.zeroOrNil(tt.At(1).Type()), m.zeroOrNil(tt.At(2).Type())}
 	case *StrIter:
 		s := string(it.s.Conc)
 		if it.i >= len(s) {
@@ -836,8 +869,8 @@ func (ch *Chan) sendReady() bool {
 	return ch != nil && (ch.Closed || len(ch.Buf) < ch.Cap || (ch.Cap == 0 && ch.recvWaiting > 0))
 }
 
-func (m *Machine) chanRecv(ch *Chan, pos token.Pos) (Value, bool) {
-	m.syncPoint()
+func (m *Machine) chanRecv(fr *frame, ch *Chan, pos token.Pos) (Value, bool) {
+	m.syncPoint(fr)
 	if ch == nil {
 		m.block(func() bool { return false }, "receive from nil channel")
 	}
@@ -864,8 +897,8 @@ func (m *Machine) chanTake(ch *Chan) (Value, bool) {
 	return m.zero(ch.ElemT), false
 }
 
-func (m *Machine) chanSend(ch *Chan, v Value, pos token.Pos) {
-	m.syncPoint()
+func (m *Machine) chanSend(fr *frame, ch *Chan, v Value, pos token.Pos) {
+	m.syncPoint(fr)
 	if ch == nil {
 		m.block(func() bool { return false }, "send on nil channel")
 	}
@@ -890,8 +923,8 @@ func (m *Machine) chanSend(ch *Chan, v Value, pos token.Pos) {
 	}
 }
 
-func (m *Machine) chanClose(ch *Chan, pos token.Pos) {
-	m.syncPoint()
+func (m *Machine) chanClose(fr *frame, ch *Chan, pos token.Pos) {
+	m.syncPoint(fr)
 	if ch == nil {
 		panic(targetPanic{msg: "close of nil channel", pos: m.posString(pos)})
 	}
@@ -902,7 +935,7 @@ func (m *Machine) chanClose(ch *Chan, pos token.Pos) {
 }
 
 func (m *Machine) selectInstr(fr *frame, instr *ssa.Select) Value {
-	m.syncPoint()
+	m.syncPoint(fr)
 	type st struct {
 		ch   *Chan
 		send Value
@@ -1055,7 +1088,7 @@ func (m *Machine) callBuiltin(caller *frame, pos token.Pos, fn *ssa.Builtin, arg
 			return m.bv64(n)
 		}
 	case "close":
-		m.chanClose(args[0].(*Chan), pos)
+		m.chanClose(caller, args[0].(*Chan), pos)
 		return nil
 	case "delete":
 		m.mapDelete(args[0].(*Map), args[1])
